@@ -164,6 +164,11 @@ OptPaths(comp, p) == IF p = "" THEN {"/", SignalPath(comp)} ELSE {Wire(p), Wire(
 OptPathOnly(comp, p) == OptPaths(comp, p) \cup (IF p = "" THEN {} ELSE {WireAll(p), WireAll(Clean(p))})
 
 IllFormedURL == {"unparsable", "noscheme", "pathonly", "badurl"}
+(* value class UNPARSABLE: the text cannot be parsed as a URL by any reading ("http://[::1", a control character or a
+   space in the scheme, a non-numeric port, a bad percent-escape, host:port without a scheme; for the gRPC exporters
+   the same texts: their variables and WithEndpointURL go through the same URL parser, only WithEndpoint(host:port)
+   is never parsed).  Such a source provides NOTHING, in whatever position it stands. *)
+ProvidesNothing == {"unparsable", "noscheme", "badurl"}
 PathOf(comp, i, p) == WithQuery(p, IF i = 2 THEN {Verbatim(PathPart(p))} ELSE {Appended(comp, PathPart(p))})
 
 (* normalised view of source i (1 = options, 2 = signal variable, 3 = generic variable):
@@ -201,8 +206,13 @@ EPFrom(comp, srcs, i, h, ps) ==
          [] s.k = "ok"     -> EPFrom(comp, srcs, i + 1,
                                      IF h = "?" /\ s.host # "" THEN s.host ELSE h,
                                      IF ps = {} THEN s.paths ELSE ps)
-         \* ill-formed: skipped (lower sources decide) or everything undetermined falls to the default
-         [] s.k = "bad"    -> EPFrom(comp, srcs, i + 1, h, ps) \cup EPDone(comp, h, ps)
+         \* ill-formed: skipped (lower sources decide).  A value that is NOT A URL AT ALL (ProvidesNothing) provides
+         \* no setting: the next source in precedence order decides, exactly as if the value were absent -- "takes
+         \* each setting from the highest-precedence source that PROVIDES it" + "unparsable values are ignored".
+         \* Only a value whose status the statement leaves open (path-only: it may be read as a provider) may also
+         \* make everything still undetermined fall to the built-in default.
+         [] s.k = "bad"    -> EPFrom(comp, srcs, i + 1, h, ps)
+                              \cup (IF srcs[i].k \in ProvidesNothing THEN {} ELSE EPDone(comp, h, ps))
                               \* a path-only value may also be read as providing (only) the path
                               \cup (IF s.paths # {} THEN EPFrom(comp, srcs, i + 1, h, IF ps = {} THEN s.paths ELSE ps)
                                                            \cup EPDone(comp, h, IF ps = {} THEN s.paths ELSE ps)
